@@ -164,8 +164,42 @@ def route_check(i, d, e, tmpdir=None, twin=False):
             shutil.rmtree(tmpdir, ignore_errors=True)
 
 
+RELOAD = [
+    # (definitions, statement between the two loads, body)
+    ('\\newcommand{\\mo}[1]{<#1>}\\newcommand{\\mz}{Zero}\n', '\\renewcommand{\\mo}[1]{changed #1}', 'A \\mo{x} \\mz'),
+    ('\\def\\dd#1{/#1/}\n', '\\def\\dd#1{(#1)(#1)}', 'A \\dd x B'),
+    ('\\newcommand{\\mz}{Zero}\n', '\\renewcommand{\\mz}{One}\\mz{} ', 'A \\mz'),
+]
+
+
+def reload_check(i, twin=False):
+    """definitions loaded, something redefined, definitions loaded again (by \\LTinput of the
+    same file / repeated in the document): later uses see the original meaning in both cases"""
+    defs_, mid, body = RELOAD[i]
+    tmpdir = tempfile.mkdtemp(prefix='vf_c09_')
+    fn = os.path.join(tmpdir, 'd.tex')
+    open(fn, 'w', encoding='utf-8').write(defs_)
+    try:
+        inp = '\\LTinput{' + fn + '}'
+        a = defs_ + mid + '\n' + defs_.replace('\\newcommand', '\\renewcommand') + body
+        b = inp + mid + '\n' + inp + body
+        (pa, ca), da, ea = yal.run_native(a, yal.mkopts({}))
+        (pb, cb), db, eb = yal.run_native(b, yal.mkopts({}))
+        if twin:
+            pb += 'x'
+        if pa.split() != pb.split():
+            return 'C09 definitions %r, then %r, then the definitions again: the document ' \
+                   'gives %r, \\LTinput of the same file gives %r' % (defs_, mid, pa, pb)
+        return None
+    finally:
+        import shutil
+        shutil.rmtree(tmpdir, ignore_errors=True)
+
+
 def items(tier, seed):
     out = []
+    for i in range(len(RELOAD)):
+        out.append({'h': 'reload', 'i': i})
     for name in DOCS:
         out.append({'h': 'sem', 'name': name})
     for i in range(len(ROUTES)):
@@ -211,10 +245,16 @@ def build(item):
 
 
 def run_item(item):
+    if item['h'] == 'reload':
+        r = reload_check(item['i'], bool(item.get('twin')))
+        return harness.smt_result(1, 0 if r else 1, [{'witness': {}, 'msg': r}] if r else [], 0, 0.0,
+                                  [RELOAD[item['i']][2]], item)
     prop, concrete = build(item)
     return harness.run(prop, concrete, item, budget_s=harness.budget(item, 120), per_path_s=30)
 
 
 def replay(rep):
+    if rep['item']['h'] == 'reload':
+        return reload_check(rep['item']['i'])
     prop, concrete = build(rep['item'])
     return concrete(rep['witness'])
